@@ -9,7 +9,8 @@
    state has it; EImport s the execution and storing of the block with stated hash s. *)
 From Coq Require Import NArith ZArith List Bool Lia Permutation Sorted.
 From Common Require Import Outcome.
-From C32 Require Import Gen Model ModelSpec ModelPrune ProofsChain ProofsImport ProofsProcess ProofsHistory ProofsPrune.
+From C31 Require Model ModelSpec.
+From C32 Require Import Gen Model ModelSpec ModelPrune ProofsChain ProofsImport ProofsProcess ProofsHistory ProofsPrune ProofsPlanTie.
 Import ListNotations.
 Local Open Scope N_scope.
 
@@ -99,6 +100,33 @@ Theorem C32_pruning_parents_first_provenance :
     /\ (forall s, In (EImport s) (tall_events outs) -> provenance bad steps s).
 Proof. exact pruning_safe. Qed.
 Print Assumptions C32_pruning_parents_first_provenance.
+
+(* Request planning.  With numOfTasks = n, best block number best and peer target target (both below
+   2^32, n too): when the node lags (best < target) the ascending requests NextActions adds to the
+   popped queue entries are exactly C31's plan for the heights best+1 .. min(best+1+n*127, target):
+   they tile that range (every height once, ascending, each request 1..128 blocks); when it does not
+   lag there are none. *)
+Theorem C32_next_actions_requests : forall n best target,
+  target < 4294967296 -> n < 4294967296 -> best < 4294967296 ->
+  (target <= best -> next_asc n best target = [])
+  /\ (best < target ->
+      let start := best + 1 in
+      let stop := N.min (start + n * 127) target in
+      let p := next_asc n best target in
+         p = C31.Model.plan start stop
+      /\ C31.ModelSpec.plan_ok_b start stop p = true
+      /\ concat (map C31.ModelSpec.heights p) = C31.Model.nseq start (N.to_nat (stop - start + 1))
+      /\ Forall (fun r => 1 <= snd r <= C31.Model.max_resp) p).
+Proof.
+  intros n best target T Hn B. split; [intro H; now apply next_asc_none|].
+  intro H. now apply next_asc_plan.
+Qed.
+Print Assumptions C32_next_actions_requests.
+
+Example C32_next_actions_example :
+  next_asc 3 10 1000 = [(11, 128); (139, 128); (267, 126)] /\ next_asc 3 10 12 = [(11, 2)]
+  /\ next_asc 3 10 10 = [] /\ next_asc 3 0 1 = [(1, 1)].
+Proof. vm_compute. repeat split; reflexivity. Qed.
 
 (* the precondition of C32_history_safe implies the one above, and run is run_with sort_frags *)
 Theorem C32_wf_implies_body : forall steps, steps_wf_b steps = true -> steps_body_b steps = true.
